@@ -1,5 +1,5 @@
 import DuneVerif.Common.Proto
-import DuneVerif.Model.C08
+import DuneVerif.Model.C08T
 /-! line-protocol driver for C08 (see harness/cxx_c08.cc for the op lines).
 
 Exact ops (`ev2x`, `ev3x`) run the model over `Rat`; values travel as integers / dyadics `<m>p<e>` (= m·2^e, m odd).
@@ -95,7 +95,7 @@ def ev3x (t : String) (v : List Int) (e : Int) : String :=
     let A : M3 Rat := ⟨r a00, r a01, r a02, r a01, r a11, r a12, r a02, r a12, r a22⟩
     let dummy : Rat → Rat := fun _ => 0
     if !diagBranchVec eps (sdiv3 A (maxAbsElement A)) then "trig" else
-    match eigenValuesVectors3d dummy dummy dummy 0 eps A with
+    match eigenValuesVectors3dD dummy dummy dummy 0 eps A with
     | ((l0, l1, l2), (v0, v1, v2)) =>
       let (w0, w1, w2) := eigenValues3d dummy dummy dummy 0 eps A
       match dyList? [w0, w1, w2], dyList? [l0, l1, l2] with
@@ -172,7 +172,7 @@ def symq (n : Nat) (k : Int) (xs : List Float) : String :=
   | 3, [a00, a01, a02, a11, a12, a22] =>
     let A : M3 Float := ⟨sc a00, sc a01, sc a02, sc a01, sc a11, sc a12, sc a02, sc a12, sc a22⟩
     let (w0, w1, w2) := eigenValues3d fSqrt Float.acos Float.cos fPi fEps A
-    let ((l0, l1, l2), (v0, v1, v2)) := eigenValuesVectors3d fSqrt Float.acos Float.cos fPi fEps A
+    let ((l0, l1, l2), (v0, v1, v2)) := eigenValuesVectors3dD fSqrt Float.acos Float.cos fPi fEps A
     shape ++ " qvals=" ++ qList k [w0, w1, w2] ++ " qvvals=" ++ qList k [l0, l1, l2] ++
       " qvecs=[" ++ qVec [v0.x, v0.y, v0.z] ++ "," ++ qVec [v1.x, v1.y, v1.z] ++ "," ++ qVec [v2.x, v2.y, v2.z] ++ "]"
   | _, _ => "bad-op"
@@ -194,15 +194,18 @@ def hand (n : Nat) (which : String) (xs : List Int) : String :=
   if !known then "bad-op" else
   if (which == "auto" || which == "autovals") && n ≤ 3 then "no-lapack" else
   let A := matOf n xs
-  let eff := lapackSeesSym n A
+  let eff := lapackSeesSymT n A
   let wantVec := which == "vecs" || which == "auto"
   "eff=" ++ showMat n eff ++ " vals=" ++ showList ((List.range n).map (· + 1)) ++ " vecs=" ++
-    (if wantVec then showMat n (copyBack n fakeZ) else "-")
+    (if wantVec then showMat n (copyBackSymT n fakeZ) else "-") ++
+    -- the job the entry point asks for (`eigenValuesLapack` runs the eigenvector job into a dummy)
+    " call=" ++ symCallLine n (if which == "vals" then Gen.entryJobs.2.2.1 else if which == "vecs" then Gen.entryJobs.2.2.2
+      else if which == "auto" then Gen.entryJobs.2.1 else Gen.entryJobs.1)
 
 def handns (n : Nat) (vec : Bool) (xs : List Int) : String :=
   if xs.length != n * n || n == 0 then "bad-op" else
   let A := matOf n xs
-  let sees := lapackSeesNonSymD n A
+  let sees := lapackSeesNonSymDT n A
   let seesA := allIdx n fun r c => sees r c == A r c
   let seesAT := allIdx n fun r c => sees r c == A c r
   let spec := if seesA || seesAT then "A" else "other"
@@ -210,16 +213,17 @@ def handns (n : Nat) (vec : Bool) (xs : List Int) : String :=
   let rightOf := if !vec then "-" else if seesA then "A" else if seesAT then "AT" else "other"
   let vals := showList ((List.range n).map fun i => toString (i + 1) ++ ":0")
   "spectrum-of=" ++ spec ++ " vals=" ++ vals ++ " right-eigenvectors-of=" ++ rightOf ++ " vecs=" ++
-    (if vec then showMat n (copyBack n fakeZ) else "-")
+    (if vec then showMat n (copyBack n fakeZ) else "-") ++ " call=" ++ nsDCallLine n vec
 
 def handnsf (n : Nat) (xs : List Int) : String :=
   if xs.length != n * n || n == 0 then "bad-op" else
   let A := matOf n xs
-  let sees := lapackSeesNonSymF n A
+  let sees := lapackSeesNonSymFT n A
   let seesA := allIdx n fun r c => sees r c == A r c
   let seesAT := allIdx n fun r c => sees r c == A c r
   let spec := if seesA || seesAT then "A" else "other"
-  "spectrum-of=" ++ spec ++ " vals=" ++ showList ((List.range n).map fun i => toString (i + 1) ++ ":0")
+  "spectrum-of=" ++ spec ++ " vals=" ++ showList ((List.range n).map fun i => toString (i + 1) ++ ":0") ++
+    " call=" ++ nsFCallLine n
 
 /-- C99 hexadecimal floating literal as printed by `%a` / `%La` -/
 def isHexFloat (s : String) : Bool :=
@@ -276,7 +280,7 @@ def handnsqSeg (st : NsOut (Int × Int) Int) (ts : List String) : Option (NsOut 
       if n == 0 || n > 8 || v > 1 || xs.length != n * n then none else
       let vec := v == 1
       let A := matOf n xs
-      let sees := lapackSeesNonSymD n A
+      let sees := lapackSeesNonSymDT n A
       let seesA := allIdx n fun r c => sees r c == A r c
       let seesAT := allIdx n fun r c => sees r c == A c r
       let spec := if seesA || seesAT then "A" else "other"
